@@ -55,6 +55,10 @@ def api_list(prog):
         out.append(("slice", kind, "R", unary(kind, "slice", lambda: ([build.indices("idx", sym("Rn"))], {}), False)))
         out.append(("product", kind, "R", unary(kind, "product", lambda: ([], {}), False)))
     keys = [k for k in table_keys(prog) if k not in ("log u(x)",)]
+    for mk in ("warm", "diag"):
+        # slicing a measure whose caches are populated (the cached arrays must be gathered with the same indices)
+        out.append(("slice", mk, "R/cached" if mk == "warm" else "R", unary(mk, "slice", lambda: ([build.indices("idx", sym("Rn"))], {}), True)))
+        out.append(("product", mk, "R/cached" if mk == "warm" else "R", unary(mk, "product", lambda: ([], {}), True)))
     for mk in MEASURE_KINDS:
         for k in keys:
             out.append((f"integrate[{k}]", mk, "R", unary(mk, "integrate", (lambda k=k: ([k], _std_kwargs(k, R, Dd) if k != "1" else {})), True)))
